@@ -94,8 +94,14 @@ ENTRIES = {
 }
 
 
+def base(kind):
+    """`str_long` / `bytes_long` are the same entry points as `str` / `bytes`, summarised at a larger LMAX for the
+    obligations that only concern the longest lines (UNKNOWN lines of 105..107 bytes)"""
+    return kind[:-5] if kind.endswith('_long') else kind
+
+
 def entry_name(prog, kind):
-    tr, ty, m = ENTRIES[kind]
+    tr, ty, m = ENTRIES[base(kind)]
     c = [n for (itr, ity, im, n) in prog.impl_index if im == m and itr and re.search(tr, itr) and re.search(ty, ity) and 'src/v1/' in n]
     if len(c) != 1:
         raise Unsupported('entry point %s: %r' % (kind, c))
@@ -112,6 +118,7 @@ def new_exec(prog, ctxs, lmax):
 
 
 def runner(prog, kind, ctx, text_valid_utf8=True):
+    kind = base(kind)
     if kind == 'str_views':
         return views_runner(prog, ctx)
     name = entry_name(prog, kind)
@@ -239,6 +246,7 @@ def discover_scripts(prog, kind, lmax, jobs=None, use_cache=True, stats=None):
     """feasible decision scripts of one entry point: parallel exploration, cached by
     sha256(MIR text, model sources, entry, LMAX). The summary itself is always rebuilt by
     replaying the scripts against the current MIR."""
+    kind = base(kind)
     key = hashlib.sha256(('%s|%s|%s|%d' % (prog.mir_sha, model_version(), kind, lmax)).encode()).hexdigest()[:32]
     path = os.path.join(CACHE, 'scripts-%s.json' % key)
     if use_cache and os.path.exists(path):
